@@ -45,8 +45,10 @@ MANIFEST = dict(
          "messages are the stub's imitation of xrcmd.c, `command timeout` is dsh.c's own; the teardown is a phase of "
          "the model (rcmd_destroy returns when the scripted command is gone: exited by itself, or killed by the "
          "forwarded SIGTERM unless it ignores it; the slot is released only then); a command that never goes makes "
-         "dsh() wait for ever — theorem immortal_never_returns, finding F07-TEARDOWN-WAIT, replayed on the real "
-         "`pdsh -R exec -u 1`; -k fail-fast is Dsh/TimedK.lean (section K of the theorems, pinned runs through the "
+         "dsh() wait for ever — theorem immortal_never_returns (for Cfg.killAfter = false, the tree as it is), finding "
+         "F07-TEARDOWN-WAIT, replayed on the real `pdsh -R exec -u 1`; the proposed repair (grace wait + SIGKILL before "
+         "rcmd_destroy) is the model switch Cfg.killAfter, probed by behaviour, acceptor runs the variant found "
+         "(kill_after_teardown_does_not_wait); -k fail-fast is Dsh/TimedK.lean (section K of the theorems, pinned runs through the "
          "acceptor); the pdcp worker's connect phase is under the same acceptor; DNS and real signal delivery are "
          "outside the model")
 
